@@ -89,6 +89,10 @@ def _project_stats(calc, task):
 def _project_out(tuples):
     out = []
     for abs_t, _rel, stype, tput, unit in tuples:
+        if tput is None:
+            # (only a changed implementation reports no value at all: den = 0 never equals a rational of the model)
+            out.append({"abs": _ticks(abs_t), "ty": int(stype), "num": 0, "den": 0, "unit": str(unit)})
+            continue
         f = Fraction(tput)
         out.append({"abs": _ticks(abs_t), "ty": int(stype), "num": f.numerator, "den": f.denominator, "unit": unit})
     return out
@@ -121,7 +125,7 @@ def execute(calls, tasks):
             if len(calc.task_stats[tobj[t]].unprocessed if tobj[t] in calc.task_stats else []) > 64:
                 # runaway carry-over (only possible when samples are duplicated): the violation is already recorded
                 return events, float_mismatch
-            if len(outf) != len(out) or any(abs(float(a[3]) - b[3]) > 1e-9 * max(1.0, abs(b[3])) for a, b in zip(out, outf)):
+            if len(outf) != len(out) or any((a[3] is None) != (b[3] is None) or (a[3] is not None and abs(float(a[3]) - b[3]) > 1e-9 * max(1.0, abs(b[3]))) for a, b in zip(out, outf)):
                 float_mismatch.append(t)
     return events, float_mismatch
 
@@ -176,7 +180,10 @@ def random_cases(seed, n, max_samples, tasks=("t1", "t2", "t3")):
                     if ty == 0 and rnd.random() < 0.3:
                         ty = 1
                     per = rnd.randint(1, min(now, 3))
-                    stream.append({"task": t, "c": c, "abs": now, "per": per, "ops": rnd.choice([0, 1, 1, 2, 5, 1000]), "ty": ty, "tput": mode[t], "unit": unit[t]})
+                    ops = rnd.choice([0, 1, 1, 2, 5, 1000])
+                    # a failed request reports 0 operations in unit "ops" whatever the operation's own unit is (execute_single)
+                    u = "ops" if ops == 0 and mode[t] == -1 and rnd.random() < 0.7 else unit[t]
+                    stream.append({"task": t, "c": c, "abs": now, "per": per, "ops": ops, "ty": ty, "tput": mode[t], "unit": u})
         if not stream:
             continue
         # arrival order: per-(task, client) order kept, otherwise random merge with bounded skew
@@ -376,6 +383,9 @@ def _race_traces(job, label):
             for abs_t, _rel, stype, tput, unit in c["res"].get(task, []):
                 # the driver's calculator works with floats: a value is identified with the simple rational it agrees with to 1e-9
                 # (count * 4 / elapsed ticks has a small denominator)
+                if tput is None:
+                    outp.append({"abs": _ticks(Fraction(abs_t) - base), "ty": int(stype), "num": 0, "den": 0, "unit": str(unit)})
+                    continue
                 f = Fraction(tput).limit_denominator(100000)
                 if abs(float(f) - float(tput)) > 1e-9 * max(1.0, abs(float(tput))):
                     raise tlc.MachineryError("non-integral throughput value %r" % (tput,))
